@@ -756,8 +756,10 @@ def run(chk, facts, tier, only=None):
             hs = ti_heads(row)
             if hs in (["Opt"], ["Variant"]):
                 fields = set()
+                from shared import helper_bodies
                 for i in nodes(row["body"], "if"):
-                    for x in walk(i["c"]):
+                    conds = [i["c"]] + helper_bodies(cp, i["c"])      # the test may live in a small predicate method
+                    for x in (y for cnd_ in conds for y in walk(cnd_)):
                         if x.get("k") == "mcall" and x["m"] == "is_some_and":
                             p = expr_path(x["recv"]) or ""
                             cl = x["args"][0]
